@@ -1,7 +1,7 @@
 CONSTANTS
   Sizes = {1, 2, 3}
   CanonOnly = TRUE
-  Chunks = 8
+  Chunks = 100
   SampleN = 0
   SampleCount = 0
   Seed = 1
